@@ -2,6 +2,7 @@ package main
 
 import (
 	"fmt"
+	"strings"
 	"sort"
 	"go/token"
 	"go/types"
@@ -185,13 +186,27 @@ func (e *Enc) instr(in ssa.Instruction, st *State) {
 		lo, hi := tupleRange(tt, in.Index)
 		e.set(in, &Val{typ: in.Type(), c: x.c[lo:hi]})
 	case *ssa.ChangeType:
-		e.set(in, &Val{typ: in.Type(), c: e.val(in.X).c})
+		if x := e.val(in.X); len(x.c) == 1 && len(leaves(in.Type())) == 2 {
+			tag := e.fresh("tparam.tag", "Int")
+			e.set(in, &Val{typ: in.Type(), c: []string{tag, app("box", x.c[0])}})
+		} else {
+			e.set(in, &Val{typ: in.Type(), c: x.c})
+		}
 	case *ssa.ChangeInterface:
-		e.set(in, &Val{typ: in.Type(), c: e.val(in.X).c})
+		x := e.val(in.X)
+		if len(x.c) == 1 && len(leaves(in.Type())) == 2 {
+			// a value of type-parameter type viewed as an interface: unknown dynamic type, payload boxed
+			tag := e.fresh("tparam.tag", "Int")
+			e.set(in, &Val{typ: in.Type(), c: []string{tag, app("box", x.c[0])}})
+		} else {
+			e.set(in, &Val{typ: in.Type(), c: x.c})
+		}
 	case *ssa.MakeInterface:
 		x := e.val(in.X)
 		payload := ""
-		if len(x.c) == 1 && leaves(in.X.Type())[0].sort == "Ref" {
+		if _, isTP := in.X.Type().(*types.TypeParam); isTP && len(x.c) == 1 {
+			payload = app("box", x.c[0])
+		} else if len(x.c) == 1 && leaves(in.X.Type())[0].sort == "Ref" {
 			payload = x.c[0]
 		} else {
 			e.n++
@@ -202,7 +217,8 @@ func (e *Enc) instr(in ssa.Instruction, st *State) {
 		x := e.val(in.X)
 		var ok string
 		if types.IsInterface(in.AssertedType) {
-			ok = e.fresh("implements", "Bool")
+			f := e.declareFun("implements!"+typeKey(in.AssertedType), "(Int) Bool")
+			ok = and(not(eq(x.c[0], "0")), app(f, x.c[0]))
 		} else {
 			ok = eq(x.c[0], e.typeTag(in.AssertedType))
 		}
@@ -400,6 +416,14 @@ func (e *Enc) binop(in *ssa.BinOp) {
 			b(f)
 		case token.ADD:
 			b(e.concat(x.c[0], y.c[0]))
+		case token.LSS:
+			b(e.strlt(x.c[0], y.c[0]))
+		case token.GTR:
+			b(e.strlt(y.c[0], x.c[0]))
+		case token.LEQ:
+			b(not(e.strlt(y.c[0], x.c[0])))
+		case token.GEQ:
+			b(not(e.strlt(x.c[0], y.c[0])))
 		default:
 			b(e.fresh("strcmp", "Bool"))
 		}
@@ -719,4 +743,40 @@ func (e *Enc) storeOrdinal(in *ssa.Store, site string) int {
 		}
 	}
 	return e.storeOrd[in]
+}
+
+// strlt: Go's < on strings (bytewise lexicographic order) as an uninterpreted strict total order.
+func (e *Enc) strlt(a, b string) string {
+	f := e.declareFun("str!lt", "(Str Str) Bool")
+	if !e.declared["strlt:axioms"] {
+		e.declared["strlt:axioms"] = true
+		e.assume(fmt.Sprintf("(forall ((a Str)) (! (not (%s a a)) :pattern ((%s a a))))", f, f))
+		e.assume(fmt.Sprintf("(forall ((a Str) (b Str)) (! (not (and (%s a b) (%s b a))) :pattern ((%s a b))))", f, f, f))
+		e.assume(fmt.Sprintf("(forall ((a Str) (b Str)) (! (or (%s a b) (%s b a) (= a b)) :pattern ((%s a b))))", f, f, f))
+	}
+	return app(f, a, b)
+}
+
+// numLess: < on two numeric values of the same Go type (integers; bit-vectors in mode bitvector).
+func (e *Enc) numLess(a, b *Val) string {
+	if strings.HasPrefix(leafSortOf(a.typ), "(_ BitVec") {
+		if isUnsigned(a.typ) {
+			return app("bvult", a.c[0], b.c[0])
+		}
+		return app("bvslt", a.c[0], b.c[0])
+	}
+	return app("<", a.c[0], b.c[0])
+}
+
+func leafSortOf(t types.Type) string {
+	ls := leaves(t)
+	if len(ls) == 1 {
+		return ls[0].sort
+	}
+	return ""
+}
+
+func isUnsigned(t types.Type) bool {
+	b, ok := t.Underlying().(*types.Basic)
+	return ok && b.Info()&types.IsUnsigned != 0
 }
